@@ -40,6 +40,25 @@ def spec_frames(ctx, oracle, driver_lines):
     return frames, ""
 
 
+def unknown_tag_frames(ctx, oracle, driver_lines, limit=1500):
+    """flexible versions only: the reference frame of the generated values WITH unknown tagged fields in the header tag buffer and
+    in the tag buffer of every struct (oracle op specx); returns list of (i, ver, hex, audited)"""
+    specs = [l for l in driver_lines if l.startswith("spec ") and len(l) < 4000][:limit * 4]
+    reqs = ["specx %s => -" % l.split("\t", 1)[0][5:] for l in specs]
+    outs, err = oracle_lines(ctx, oracle, reqs)
+    if outs is None:
+        return None, err
+    frames = []
+    for l, o in zip(specs, outs):
+        m = re.match(r"model=([AU])([0-9a-f]*) holds=1$", o)
+        if not m:
+            return None, "oracle answer to specx request: " + o[:200]
+        if m.group(2):
+            p = l.split(" ", 3)
+            frames.append((p[1], p[2], m.group(2), m.group(1) == "A"))
+    return frames[:limit], ""
+
+
 def write_cases(path, cases):
     with open(path, "w") as f:
         for c in cases:
